@@ -129,6 +129,37 @@ def run_canaries(rep, prop, sub, acc):
     rep.extra["canaries_rejected"] = [c[0] for c in cans]
 
 
+def corpus_part(rep, prop, refs=False):
+    """The frozen test-suite corpus (workbooks the repository's own tests convert) through the hooked converter, judged by TLC with
+    Source = "suite" (clauses that presuppose the generator's own forms are off).  Forms outside the modelled fragment are abstained on."""
+    from harness import suitecorpus
+
+    jobs = []
+    for i, it in enumerate(suitecorpus.load()):
+        st = next((s for s in it["wb"]["sheets"] if s["name"] == "settings"), None)
+        if st and "flat" in [str(h).lower() for h in st["header"]]:
+            continue
+        kw = {"form_name": it["form_name"]} if it.get("form_name") else {}
+        jobs.append({"wb": it["wb"], "fmt": "dict", "kwargs": kw, "refs": refs, "shapes": ["suite_corpus", i], "seed": 0, "feat": [], "tag": {"suite_form": i, "test": it.get("test")}})
+    outs = corpus.run_forms(jobs)
+    for o in outs:
+        if o.get("status") == "harness_error":
+            raise tlc.MachineryError(f"harness error in worker: {o.get('message')}\n{o.get('tb')}")
+    sub = [o for o in outs if o.get("frag") and o["res"]["status"] in ("ok", "pyxform_error") and len(o["trace"]) <= 120]
+    if len(sub) < 300:
+        raise tlc.MachineryError(f"suite corpus produced only {len(sub)} usable traces")
+    acc, info = tlc.validate_traces(TRACE_MOD, TRACE_CFG, [o["trace"] for o in sub], shards=12, env={"PROP": prop, "VERIF_SRC": "suite"}, tag=f"corpus{prop}", timeout=1500)
+    rep.traces_validated += len(acc)
+    rep.extra.setdefault("trace_runs", []).append({"source": "frozen test-suite corpus through the hooked converter (Source = suite)", "forms": len(jobs), "traces": len(sub), "accepted": len(acc),
+                                                   "abstained_outside_fragment": len(outs) - len(sub), "wall_s": round(info["wall"], 1)})
+    for i, o in enumerate(sub):
+        rep.case({"suite_form": o["tag"]["suite_form"]}, nontrivial=o["res"]["status"] == "ok")
+        if i not in acc:
+            l, clause = info["progress"].get(i, (0, "unexplained_event"))
+            rep.violation(f"{prop}:{clause}:suite_corpus", f"form {o['tag']} rejected at event {l} clause {clause}; status={o['res']['status']} {str(o['res'].get('message'))[:120]}",
+                          {"suite_corpus": True, "tag": o["tag"], "wb": o["wb"], "clause": clause, "event": l})
+
+
 def suite_part(rep, prop):
     """The repository's own tests as a source of executions: every convert() the suite performs, hooks on, judged by TLC."""
     import os
